@@ -166,9 +166,14 @@ where
                         basic.nonce != info.nonce || basic.balance != info.balance
                     }))
             {
+                // Non-empty code is versioned separately under `Code(address)`. An account without
+                // code keeps the (empty) bytecode its journal carries, exactly as revm's cache would
+                // hand it to a later transaction; dropping it loses the `KECCAK_EMPTY` entry revm
+                // records in the bundle's contracts when that later transaction changes the account.
+                let basic_code = if has_code { None } else { info.code.clone() };
                 self.publish_value(
                     LocationAndType::Basic(*address),
-                    MemoryValue::Basic(Some(AccountInfo { code: None, ..info.clone() })),
+                    MemoryValue::Basic(Some(AccountInfo { code: basic_code, ..info.clone() })),
                     estimate,
                     &mut write_set,
                 );
